@@ -13,10 +13,10 @@
 namespace vf {
 using namespace asmjit;
 
-enum Kind : uint8_t { K_NONE, K_GP8, K_GP16, K_GP32, K_GP64, K_MM, K_XMM, K_YMM, K_ZMM, K_KREG, K_MEM, K_IMM };
+enum Kind : uint8_t { K_NONE, K_GP8, K_GP16, K_GP32, K_GP64, K_MM, K_XMM, K_YMM, K_ZMM, K_KREG, K_MEM, K_IMM, K_VMEM /* VSIB memory: size = 1 xmm, 2 ymm, 3 zmm index */ };
 enum Role : uint8_t { R_NONE, R_REG, R_RM, R_VVVV, R_IS4, R_OPREG, R_IMM };
 enum Enc : uint8_t { E_LEGACY, E_VEX, E_EVEX, E_XOP };
-enum : uint8_t { F_K = 1, F_Z = 2, F_NOABS_ACC = 4 };
+enum : uint8_t { F_K = 1, F_Z = 2, F_NOABS_ACC = 4, F_PREFER_EVEX = 8 };
 
 struct Op { uint8_t kind, role; uint16_t size; int16_t fixed; char acc; };  // fixed: -1 free; >= 0 required register id / immediate value; -2 sign-extended immediate; -3 zero-extended (unsigned) immediate
 struct Form {
@@ -36,7 +36,7 @@ struct Form {
 };
 
 // ---- what was handed to the assembler
-struct MemX { bool has_base, has_index, rip, addr32; uint32_t base, index, shift, seg; int32_t disp; };
+struct MemX { bool has_base, has_index, rip, addr32, addr16, vsib; uint32_t base, index, shift, seg; int32_t disp; };
 struct Given {
   uint32_t reg_enc[4];   // encoding id of a register operand (AH..BH already mapped to 4..7)
   bool gp8_hi[4], gp8_needs_rex[4];
@@ -114,11 +114,16 @@ static Dec decode(const Form& f, const uint8_t* p, bool x64) {
     uint32_t mod = d.modrm >> 6, rm = d.modrm & 7;
     if (mod != 3) {
       bool a16 = !x64 && d.p67;
-      if (a16) return d;  // 16-bit addressing is not generated by this family
+      if (a16) {   // 16-bit addressing: no SIB; mod=00 rm=110 is [disp16]
+        if (mod == 1) { d.disp = int64_t(int8_t(p[i])) * (int64_t(1) << (f.enc == E_EVEX ? f.disp8_shift : 0)); d.disp_size = 1; i += 1; }
+        else if (mod == 2 || (mod == 0 && rm == 6)) { d.disp = int16_t(uint16_t(p[i]) | uint16_t(p[i + 1]) << 8); d.disp_size = 2; i += 2; }
+      }
+      else {
       if (rm == 4) { d.has_sib = true; d.sib = p[i++]; }
       if (mod == 1) { d.disp = int64_t(int8_t(p[i])) * (int64_t(1) << (f.enc == E_EVEX ? f.disp8_shift : 0)); d.disp_size = 1; i += 1; }
       else if (mod == 2 || (mod == 0 && rm == 5) || (mod == 0 && d.has_sib && (d.sib & 7) == 5)) {
         d.disp = int32_t(uint32_t(p[i]) | uint32_t(p[i + 1]) << 8 | uint32_t(p[i + 2]) << 16 | uint32_t(p[i + 3]) << 24); d.disp_size = 4; i += 4;
+      }
       }
     }
   }
@@ -184,14 +189,14 @@ static bool matches(const Form& f, const Dec& d, const Given& g, bool x64) {
         break;
       }
       case R_RM: {
-        if (op.kind == K_MEM) break;
+        if (op.kind == K_MEM || op.kind == K_VMEM) break;
         CHK((d.modrm >> 6) == 3);
         uint32_t got = (d.modrm & 7) | (d.B << 3) | (f.enc == E_EVEX && is_vec(op.kind) ? d.X << 4 : 0);
         if (!(f.enc == E_EVEX && is_vec(op.kind))) CHK(d.X == 0);
         CHK(got == id);
         break;
       }
-      case R_VVVV: { vvvv_used = true; CHK((d.vvvv | (d.V2 << 4)) == id); break; }
+      case R_VVVV: { vvvv_used = true; CHK((d.vvvv | ((g.mem_index >= 0 && g.mem.vsib && f.enc == E_EVEX) ? 0u : (d.V2 << 4))) == id); break; }
       case R_IS4: { CHK((d.is4 >> 4) == id && (x64 || !(d.is4 & 0x80))); break; }
       case R_OPREG: { CHK(((d.opcode & 7) | (d.B << 3)) == id); CHK(d.X == 0 && d.R == 0); break; }
       default: break;
@@ -205,7 +210,7 @@ static bool matches(const Form& f, const Dec& d, const Given& g, bool x64) {
       if (g.gp8_needs_rex[k]) CHK(d.has_rex);       // SPL..DIL need one
     }
   }
-  if (f.enc != E_LEGACY && !vvvv_used) CHK(d.vvvv == 0 && d.V2 == 0);
+  if (f.enc != E_LEGACY && !vvvv_used) CHK(d.vvvv == 0 && (d.V2 == 0 || (g.mem_index >= 0 && g.mem.vsib)));
   if (f.has_modrm && f.digit >= 0) { CHK(((d.modrm >> 3) & 7) == uint32_t(f.digit)); CHK(d.R == 0 && d.R2 == 0); }
   // --- memory operand
   if (mem_present) {
@@ -213,11 +218,19 @@ static bool matches(const Form& f, const Dec& d, const Given& g, bool x64) {
     uint32_t mod = d.modrm >> 6, rm = d.modrm & 7;
     CHK(mod != 3);
     CHK(d.seg == m.seg);
-    CHK(d.p67 == (x64 ? m.addr32 : false));
+    CHK(d.p67 == (x64 ? m.addr32 : m.addr16));
     bool dbase, dindex = false, drip = false; uint32_t base = 0, index = 0, scale = 0;
-    if (d.has_sib) {
+    if (!x64 && d.p67) {   // 16-bit ModRM table (SDM Vol.2 table 2-1): bx=3 bp=5 si=6 di=7
+      static const uint8_t kBase[8] = { 3, 3, 5, 5, 6, 7, 5, 3 }; static const uint8_t kIndex[8] = { 6, 7, 6, 7, 0xFF, 0xFF, 0xFF, 0xFF };
+      if (rm == 6 && mod == 0) { dbase = false; }
+      else { dbase = true; base = kBase[rm]; if (kIndex[rm] != 0xFF) { dindex = true; index = kIndex[rm]; scale = 0; } }
+      CHK(d.X == 0 && d.B == 0);
+      if (!dbase) CHK(d.disp_size == 2);
+    }
+    else if (d.has_sib) {
       uint32_t sb = d.sib & 7, si = (d.sib >> 3) & 7; scale = d.sib >> 6;
       index = si | (d.X << 3); dindex = index != 4;
+      if (m.vsib) { dindex = true; if (f.enc == E_EVEX) index |= d.V2 << 4; }   // VSIB: index is a vector register, 100b is a valid id, EVEX.V' extends it
       base = sb | (d.B << 3); dbase = !(sb == 5 && mod == 0);
     } else {
       CHK(d.X == 0);
@@ -228,7 +241,8 @@ static bool matches(const Form& f, const Dec& d, const Given& g, bool x64) {
     CHK(dbase == m.has_base); if (m.has_base) CHK(base == m.base);
     CHK(dindex == m.has_index); if (m.has_index) CHK(index == m.index && scale == m.shift);
     CHK(d.disp == int64_t(m.disp));
-    if (!dbase && !drip) CHK(d.disp_size == 4);
+    if (!dbase && !drip && !(!x64 && d.p67)) CHK(d.disp_size == 4);
+    if (m.vsib) CHK(d.has_sib);
   }
   // --- immediate
   if (f.imm_bytes) {
@@ -271,9 +285,22 @@ static void build_operands(const Form* forms, uint32_t nforms, int evex_split, O
       case K_YMM: { uint32_t id = pick(X64 ? (evex ? 31 : 15) : 7); o[k] = x86::ymm(id); g.reg_enc[k] = id; break; }
       case K_ZMM: { uint32_t id = pick(X64 ? 31 : 7); o[k] = x86::zmm(id); g.reg_enc[k] = id; break; }
       case K_KREG: { uint32_t id = pick(7); o[k] = x86::k(id); g.reg_enc[k] = id; break; }
+      case K_VMEM: {   // VSIB: [base + vector index * scale + disp32] or [vector index * scale + disp32]
+        MemX& m = g.mem; g.mem_index = int(k); m.vsib = true; m.has_index = true;
+        m.disp = int32_t(nondet_u32()); m.seg = pick(7); V_ASSUME(m.seg <= 6);
+        m.addr32 = X64 ? nondet_bool() : false;
+        uint32_t b = pick(X64 ? 15 : 7), sh = pick(3);
+        m.index = pick(X64 ? (evex ? 31 : 15) : 7); m.shift = sh; m.has_base = nondet_bool(); m.base = b;
+        x86::Vec vidx = op.size == 1 ? x86::xmm(m.index) : op.size == 2 ? x86::ymm(m.index) : x86::zmm(m.index);
+        x86::Mem mem = m.has_base ? x86::ptr((X64 && !m.addr32) ? x86::gpq(b) : x86::gpd(b), vidx, sh, m.disp) : x86::ptr(uint64_t(X64 ? uint64_t(int64_t(m.disp)) : uint64_t(uint32_t(m.disp))), vidx, sh);
+        if (!m.has_base) m.addr32 = false;
+        if (m.seg) mem.set_segment(x86::SReg(m.seg));
+        o[k] = mem;
+        break;
+      }
       case K_MEM: {
         MemX& m = g.mem; g.mem_index = int(k);
-        uint32_t shape = pick(3);
+        uint32_t shape = pick(7); V_ASSUME(shape <= 4);
         m.disp = int32_t(nondet_u32()); m.seg = pick(7); V_ASSUME(m.seg <= 6);
         m.addr32 = X64 ? nondet_bool() : false;
         uint32_t b = pick(X64 ? 15 : 7), x = pick(X64 ? 15 : 7), sh = pick(3);
@@ -283,6 +310,16 @@ static void build_operands(const Form* forms, uint32_t nforms, int evex_split, O
           V_ASSUME(x != 4);
           m.has_base = true; m.base = b; m.has_index = true; m.index = x; m.shift = sh;
           mem = (X64 && !m.addr32) ? x86::ptr(x86::gpq(b), x86::gpq(x), sh, m.disp) : x86::ptr(x86::gpd(b), x86::gpd(x), sh, m.disp);
+        }
+        else if (shape == 4) {   // 16-bit addressing (32-bit mode only): the eight ModRM combinations + [disp16]
+          V_ASSUME(!X64);
+          uint32_t rm16 = pick(15); V_ASSUME(rm16 <= 8);
+          static const uint8_t kBase[8] = { 3, 3, 5, 5, 6, 7, 5, 3 }; static const uint8_t kIndex[8] = { 6, 7, 6, 7, 0xFF, 0xFF, 0xFF, 0xFF };
+          m.addr16 = true; m.disp = int32_t(int16_t(m.disp));
+          if (rm16 == 8) { V_ASSUME(false); }   // absolute 16-bit addresses cannot be expressed through the operand API: not generated
+          m.has_base = true; m.base = kBase[rm16];
+          if (kIndex[rm16] != 0xFF) { m.has_index = true; m.index = kIndex[rm16]; m.shift = 0; mem = x86::ptr(x86::gpw(m.base), x86::gpw(m.index), 0, m.disp); }
+          else mem = x86::ptr(x86::gpw(m.base), m.disp);
         }
         else if (shape == 2) { m.addr32 = false; mem = x86::ptr(X64 ? uint64_t(int64_t(m.disp)) : uint64_t(uint32_t(m.disp))); if (X64) mem.set_addr_type(x86::Mem::AddrType::kAbs); }
         else { V_ASSUME(X64); m.addr32 = false; m.rip = true; mem = x86::ptr(x86::rip, m.disp); }
@@ -323,6 +360,16 @@ static void build_operands(const Form* forms, uint32_t nforms, int evex_split, O
       bool all_same = true; for (uint32_t i = 1; i < nforms; i++) if (forms[i].ops[k].fixed != f0.ops[k].fixed) all_same = false;
       if (all_same) V_ASSUME(g.reg_enc[k] == uint32_t(f0.ops[k].fixed) && !g.gp8_hi[k]);
     }
+  }
+  {   // D18 region: 16-bit addressing in an EVEX-encoded instruction (disp8 is emitted without the *N compression)
+    bool needs_evex = g.k != 0, all_evex = true;
+    for (uint32_t i = 0; i < nforms; i++) { if (forms[i].enc != E_EVEX) all_evex = false; if (forms[i].flags & F_PREFER_EVEX) needs_evex = true; }
+    for (uint32_t k = 0; k < f0.nops; k++) { if (f0.ops[k].kind == K_ZMM) needs_evex = true; if (is_vec(f0.ops[k].kind) && g.reg_enc[k] >= 16) needs_evex = true; }
+    bool d18 = g.mem_index >= 0 && g.mem.addr16 && (needs_evex || all_evex);
+#if KF_D18
+    if (evex_split != 6) V_ASSUME(!d18);
+#endif
+    if (evex_split == 6) V_ASSUME(d18);
   }
   if (evex_split == 3 || evex_split == 4) {   // D4 region: segment override together with an address-size override
     bool long_form = g.mem_index >= 0 && g.mem.seg != 0 && g.mem.addr32;
@@ -456,11 +503,12 @@ static void run_rw(const Form* forms, uint32_t nforms, int split = 0) {
     bool zeroing_capable = false; for (uint32_t k = 0; k < nforms; k++) if (forms[k].flags & F_Z) zeroing_capable = true;
     if (i == 0 && wr && g.k && !g.z && zeroing_capable) rd = true;
     verif_observe(uint32_t(w.op_flags()));
-    if (op.kind == K_MEM) {
-      V_ASSERT(w.is_read() == rd && w.is_write() == wr, "memory operand access equals the database record");
+    // The property asks for coverage (nothing the CPU reads/writes may be missing from the report); over-reporting is not a violation.
+    if (op.kind == K_MEM || op.kind == K_VMEM) {
+      V_ASSERT((!rd || w.is_read()) && (!wr || w.is_write()), "memory operand: every access of the database record is reported");
     } else {
-      V_ASSERT(w.is_read() == rd, "register operand is reported read exactly when the database marks it R or X");
-      V_ASSERT(w.is_write() == wr, "register operand is reported written exactly when the database marks it W or X");
+      V_ASSERT(!rd || w.is_read(), "register operand the database marks R or X is reported read");
+      V_ASSERT(!wr || w.is_write(), "register operand the database marks W or X is reported written");
       if (wr && X64 && op.kind == K_GP32 && (op.acc == 'W' || op.acc == 'X')) V_ASSERT((w.write_byte_mask() | w.extend_byte_mask()) == 0xFFu, "a 32-bit GP destination is written or zero-extended over all 8 bytes in 64-bit mode");
       if (wr && (op.kind == K_GP8 || op.kind == K_GP16) && (op.acc == 'w' || op.acc == 'x')) V_ASSERT(!w.is_zext() && w.extend_byte_mask() == 0, "a partial 8/16-bit write does not extend");
     }
